@@ -20,9 +20,9 @@ TECH = {
  "C14": "decoder call graph; loop-bound and consumption rules, allocation-sink scan with positive control, closed-universe dispatch rules",
  "C15": "abstract interpretation of the toJson / fromJson container dispatch over a term language (rules/jsonshape.py), decision-path sets of the basic converters, sibling agreement of the enum name maps",
  "C16": "partial evaluation of Router.patternToRegex on constant patterns (engine/minieval.py, the program is not run) and differencing of the built texts into per-kind fragments; regular-expression AST analysis (FIRST sets, capture counts, character classes) of the fragments; first-match rules on getRoute; fresh-container rule for the route table",
- "C17": "edge cut over the CFG of path_join_safe: with the out-edges of the classified containment tests removed no return is reachable; def-use identity of the guarded and the returned value",
+ "C17": "edge cut over the CFG of path_join_safe: with the out-edges of the classified containment tests removed no return is reachable; def-use identity of the guarded and the returned value; the component test (dot segments, backslashes) decided by partial evaluation of the function up to os.path.join on a family of file names (engine/minieval.py)",
  "C18": "interval (cell) exploration of the two length-form encoders over payload_length with the packed values captured; read-path formats and byte counts by value through temporaries; flag geometry decided by folding each field expression for all 256 byte values; frameSize decided by partial evaluation (engine/minieval.py, the program is not run) on every header prefix against what the read path consumes; straight-line symbolic evaluation of the frame factories and of hasFrame; RFC 6455 opcode agreement; shape rule for the frame read loop",
- "C19": "exception-discipline table over verify_password, dominance of verification over the True result, writer/reader agreement of the hash string layout on flattened byte-string terms, edge cuts for method/version and length validation, reaching definitions of the salt",
+ "C19": "partial evaluation of hash_password / verify_password on constant inputs with the cryptographic library replaced by recording stand-ins (engine/minieval.py, rules/c19eval.py; nothing is run): refusals and their exception types, the values that reach Scrypt on both sides, the verdict; fallback and remaining rules: exception-discipline table, dominance of verification over the True result, writer/reader agreement on flattened byte-string terms, edge cuts for method/version and length validation, reaching definitions of the salt (CSPRNG, fresh per call)",
  "C20": "key-kind (NAME vs class) agreement on registered_events by reaching definitions, guard-polarity contradiction rule, sibling agreement of register/unregister, decorator and dispatch wiring by value (symbolic expression of what is stored / called) with edge cuts for the refusals",
 }
 from rules.common import IDIOMS_NOTE
